@@ -249,7 +249,7 @@ def rule_f(repo, chk):
     path_prefix_check(repo, chk, 'C10.f', ['jedi.inference.sys_path', 'jedi.inference.imports'], checked=PREFIX_CHECKED, floor=1)
 
 
-SEARCH_PATH_MODULES = ['jedi.inference.value.namespace', 'jedi.inference.imports', 'jedi.api.project', 'jedi.inference.compiled.subprocess.functions']
+SEARCH_PATH_MODULES = ['jedi.inference.value.namespace', 'jedi.inference.value.module', 'jedi.inference.imports', 'jedi.api.project', 'jedi.inference.compiled.subprocess.functions']
 REORDER_TRIAGED = {
     ('jedi.inference.imports', '_load_builtin_module', 'set(project._get_base_sys_path(inference_state))'):
         'a membership table (safe_paths) used to FILTER sys_path in its own order, never iterated',
